@@ -8,6 +8,7 @@ file list may be filled in, every unpack root `R` and every initial file system 
 -/
 import Sqfs.Proofs.UnpackComplete
 import Sqfs.Proofs.UnpackWeak
+import Sqfs.Proofs.UnpackDup
 namespace Sqfs.C06
 open Sqfs.Path Sqfs.Unpack
 
@@ -16,10 +17,27 @@ open Sqfs.Path Sqfs.Unpack
 theorem treeSort_names_distinct (t t' : TNode) (h : treeSort t = .ok t') : NodupH t' :=
   treeSort_nodup t t' h
 
-/-- NUL-cut names: two raw names with the same bytes before their first NUL are duplicates for `tree_sort`. -/
-theorem decode_name_is_cstr (tf : TreeFlags) (n : Bytes) (k : Kind) (p : Bytes) (a : Attr) (ch : List TNode) :
-    (decode tf (.mk n k p a ch)).name = cstr n := by
-  simp [decode, TNode.name]
+/-- **NUL-cut names are duplicates for `tree_sort`.**  Take any raw directory of an image (any name, any attributes, any
+    other entries `l₁`, `l₂`, `l₃` around them) with two entries `x`, `y` that `fill_dir` keeps (`Kept`: not dropped by
+    `-D -S -F -L`, not an empty directory under `-E`) and whose raw names have the same bytes before their first NUL —
+    `a\0x` and `a\0y`, or `a` and `a\0…`: `tree_sort` on the tree the unpacker works with fails with "duplicate", so
+    nothing is unpacked (`unpackTree_dup`).  (`create_node` copies the name with `strcpy`, so the two entries *are* the
+    same C string; `treeSort_names_distinct` is the converse direction.) -/
+theorem nul_cut_names_are_duplicates (tf : TreeFlags) (n p : Bytes) (a : Attr) (l₁ l₂ l₃ : List TNode) (x y : TNode)
+    (hx : Kept tf x) (hy : Kept tf y) (h : cstr x.name = cstr y.name) :
+    treeSort (decode tf (.mk n .dir p a (l₁ ++ x :: (l₂ ++ y :: l₃)))) = .error .duplicate := by
+  simp only [decode, if_true]
+  exact treeSort_dup_level _ _ _ _ _ (decodeL_dup tf l₁ l₂ l₃ x y hx hy h)
+
+/-- instance: a file `a\0x` and a symbolic link `a\0y` with a directory in between, nothing pruned — refused; and with
+    `-L` (symbolic links dropped) the hypothesis `Kept` fails for the link and the same tree *is* sorted -/
+example : treeSort (decode {} (.mk [] .dir [] {} ([] ++ .mk [97, 0, 120] .reg [1] {} [] :: ([.mk [98] .dir [] {} []] ++
+      .mk [97, 0, 121] .lnk [120] {} [] :: [])))) = .error .duplicate :=
+  nul_cut_names_are_duplicates {} [] [] {} [] [.mk [98] .dir [] {} []] [] (.mk [97, 0, 120] .reg [1] {} [])
+    (.mk [97, 0, 121] .lnk [120] {} []) (by decide) (by decide) (by decide)
+example : ¬ Kept { noSlink := true } (.mk [97, 0, 121] .lnk [120] {} []) ∧
+    (treeSort (decode { noSlink := true } (.mk [] .dir [] {} [.mk [97, 0, 120] .reg [1] {} [], .mk [98] .dir [] {} [],
+      .mk [97, 0, 121] .lnk [120] {} []]))).toOption.isSome = true := by decide
 
 /-- **Clean paths.** Every path argument in the plan is the '/'-join of components each of which is non-empty,
     passes `is_filename_sane` (is not "." or "..", contains no '/').  (The list of components is empty — the path is
@@ -79,6 +97,30 @@ theorem resolve_stays_under_R (fs : Fs) (R : PathC) (comps : List Bytes) (follow
     (∃ e, resolve fs R (joinSlash comps) followLast = .error e) ∨
       (comps ≠ [] ∧ resolve fs R (joinSlash comps) followLast = .ok (R ++ comps, fs (R ++ comps))) :=
   resolve_good fs R comps followLast hgood hpre hlast
+
+/-- instance (all hypotheses discharged): `/R` and `/R/b` are directories, nothing else exists; the clean path `b/a`, handled
+    no-follow from `/R`, resolves to `/R/b/a` (absent) — or fails — and nowhere else -/
+example :
+    let fs : Fs := fun q => if q = [] ∨ q = [[82]] ∨ q = [[82], [98]] then some ⟨.dir, {}⟩ else none
+    (∃ e, resolve fs [[82]] (joinSlash [[98], [97]]) false = .error e) ∨
+      (([[98], [97]] : List Bytes) ≠ [] ∧
+        resolve fs [[82]] (joinSlash [[98], [97]]) false = .ok ([[82]] ++ [[98], [97]], fs ([[82]] ++ [[98], [97]]))) := by
+  intro fs
+  refine resolve_stays_under_R fs [[82]] [[98], [97]] false (by decide) ?_ (Or.inl rfl)
+  intro pre hp hne hne2
+  right
+  have : pre = [[98]] := by
+    rcases pre with _ | ⟨a, _ | ⟨b, t⟩⟩
+    · exact absurd rfl hne
+    · have := hp; simp [List.cons_prefix_cons] at this; simp [this]
+    · exfalso
+      have h := hp
+      simp only [List.cons_prefix_cons] at h
+      obtain ⟨rfl, rfl, h3⟩ := h
+      have : t = [] := List.eq_nil_of_prefix_nil h3
+      subst this; exact hne2 rfl
+  subst this
+  exact ⟨{}, rfl⟩
 
 /-- **Confinement.** For every tree, every option set and every fill order: executing the plan with working
     directory `R`, from any file system in which `R` is fresh, leaves everything that is not strictly below `R`
@@ -230,6 +272,22 @@ theorem failing_mkdir_p_ends_run (ord : List FileEnt → List FileEnt) (fl : Fla
     obtain ⟨hf, hlast⟩ := run_bad_is_last flt _ _ 0 _ x hx hbad
     rw [unpackMain_mkdir_fail hs hf]
     exact ⟨rfl, rfl, rfl, hlast⟩
+
+/-- instance (all hypotheses discharged): `-p R` with `/R` absent and the very first call, `mkdir("R")`, refused with `EACCES`
+    (call number 0): it is in `pre`, it is not `Fine`, so it is the last call — no `chdir`, no walk, `EXIT_FAILURE` -/
+example :
+    let fs : Fs := fun q => if q = [] then some ⟨.dir, {}⟩ else none
+    let t : TNode := .mk [] .dir [] {} [.mk [98] .dir [] {} [.mk [97] .reg [2] {} []], .mk [97] .lnk [DOT, DOT, SL, 120] {} []]
+    let flt : Faults := fun i => if i = 0 then some .EACCES else none
+    (unpackMain id {} t (some [82]) flt [] fs).exit = 1 ∧ (unpackMain id {} t (some [82]) flt [] fs).chdirRes = none ∧
+    (unpackMain id {} t (some [82]) flt [] fs).trace = [] ∧
+    ∃ pre, (unpackMain id {} t (some [82]) flt [] fs).pre = pre ++ [(.mkdir [82] 0o755, some .EACCES)] := by
+  intro fs t flt
+  refine failing_mkdir_p_ends_run id {} t [82] flt [] fs (.mkdir [82] 0o755, some .EACCES) (by decide) ?_
+  intro h
+  rcases h with h | ⟨e, h1, h2⟩
+  · cases h
+  · cases h1; revert h2; decide
 
 /-- **Exit status 0 means the whole image was unpacked** (second half of "the rest of the image is still unpacked or the
     tool fails"): if `main` returns `EXIT_SUCCESS` then the walks were reached, the plan had no error of its own, *every*
@@ -444,6 +502,15 @@ example : NoLinkBelow fs4 [Rn] ∧ ¬ Fresh fs4 [Rn] := by
 example : (unpackMain id {} (hostile false) (some Rn) noFaults [] fs4).exit = 1 ∧
     (unpackMain id {} (hostile false) (some Rn) noFaults [] fs4).trace = [(.symlink upX A, some .EEXIST)] ∧
     (unpackMain id {} (hostile false) (some Rn) noFaults [] fs4).fs [X] = some ⟨.file [1], {}⟩ := by decide
+/-! the remaining theorems with hypotheses, applied to the hostile tree with every hypothesis discharged -/
+example := skipped_reported_rest_unpacked { chmod := true } (hostile false) (by decide)
+example : (restoreFstree { chmod := true } (hostile false)).skips = skippedRoot (hostile false) :=
+  skip_reports_exact { chmod := true } (hostile false) (by decide)
+/-- `plan_prefix_dirs` at the `open("b/a", O_EXCL)` event of the plan: its proper prefix `b` was made by an earlier `mkdir` -/
+example := plan_prefix_dirs id (fun _ _ h => h) { chmod := true } (hostile false) _ _ _
+  (show (unpackTree id { chmod := true } (hostile false)).evs =
+    [.sys (.symlink upX A), .sys (.mkdir B 0o755), .skip DD] ++ Ev.sys (.openExcl [98, 47, 97] 0o200) ::
+     [.skip DD, .sys (.openTrunc [98, 47, 97] [2]), .sys (.chmod [98, 47, 97] 0), .sys (.chmod B 0)] from by decide)
 end examples
 
 end Sqfs.C06
